@@ -1,7 +1,7 @@
 """C05 -- DoWhile unrolling is wired correctly for any number of iterations.  Spec: spec/DoWhile.tla
 
 1. TLC checks the clauses of C05 (ExactInstances, CarriedFromPrevious, OthersFromOriginal, SameIterationInside,
-   NoStageDrift, LatestIsHighest, AggregateInOrder, ConditionFromNewest) on every reachable state of the unrolling state
+   NoStageDrift, LatestIsHighest, AggregateInOrder, OutsideResolution, ConditionFromNewest) on every reachable state of the unrolling state
    machine for every document shape of the family (import stage, 1-2 looped components, body stages, with/without
    loopBindings and which component carries them, condition producer, replication inside the loop, names one of which
    ends in the other, the same document imported twice) up to MaxK >= 12 iterations; coverage guard on Iterate; the
@@ -25,7 +25,7 @@ from .. import tlc
 
 PID = "C05"
 INVARIANTS = ["TypeOK", "ExactInstances", "CarriedFromPrevious", "OthersFromOriginal", "SameIterationInside",
-              "NoStageDrift", "LatestIsHighest", "AggregateInOrder", "ConditionFromNewest"]
+              "NoStageDrift", "LatestIsHighest", "AggregateInOrder", "OutsideResolution", "ConditionFromNewest"]
 METHS = ["ref", "output", "loopref", "loopoutput"]
 AGG = ("loopref", "loopoutput")
 
